@@ -24,11 +24,11 @@ FRONTENDS = ["aiohttp", "wsgi"]
 GRID = [(p, pr, ac, fe) for p in PREFIXES for pr in PRINCIPALS for ac in AUTOCREATE for fe in FRONTENDS]
 
 
-def make_config(seed, tier):
+def make_config(seed, tier, index=None):
     r = random.Random(H("discocfg", seed))
-    # the grid is walked systematically by seed order inside a batch, the
-    # history on top of it is seeded
-    p, pr, ac, fe = GRID[seed % len(GRID)] if tier == "thorough" else r.choice(GRID)
+    # thorough: the grid is walked systematically by run index, the history on
+    # top of it is seeded; quick: sampled
+    p, pr, ac, fe = GRID[index % len(GRID)] if (tier == "thorough" and index is not None) else r.choice(GRID)
     return {"seed": seed, "prefix": p, "principal": pr, "autocreate": ac, "frontend": fe, "strict": True, "listing": True,
             "restarts": r.randint(0, 3), "entry": r.choice(["root", "root", "wk-caldav", "wk-carddav"]), "writes": r.randint(1, 4),
             "recreate": r.random() < 0.35}
